@@ -74,6 +74,8 @@ type Engine struct {
 	choiceCount int
 	initDepth   int
 
+	varsMemo        map[int][]*Term
+	tableMemo       map[int]*byteSet
 	fnInfos         map[*ssa.Function]*fnInfo
 	noMerge         bool
 	decProv         map[int][]*Term
@@ -154,7 +156,8 @@ func newEngine(p *Program, solverBin string, qtimeoutMs int) *Engine {
 	tt := NewTermTable()
 	e := &Engine{Program: p, tt: tt, globals: map[*ssa.Global]*Object{}, inited: map[*ssa.Package]bool{},
 		summarise: map[string]bool{}, sumMemo: map[string]*sumMemo{}, recordFuncs: true,
-		decProv: map[int][]*Term{}, maxFormatDigits: 6, fnInfos: map[*ssa.Function]*fnInfo{}}
+		decProv: map[int][]*Term{}, maxFormatDigits: 6, fnInfos: map[*ssa.Function]*fnInfo{},
+		varsMemo: map[int][]*Term{}, tableMemo: map[int]*byteSet{}}
 	e.solver = NewSolver(tt, solverBin, qtimeoutMs)
 	return e
 }
@@ -247,7 +250,8 @@ func (e *Engine) ensureInit(r *Run, pkg *ssa.Package) {
 			ImpureFalls: map[string]int{}, GlobalWrites: map[string]int{}, Functions: map[string]int{}, Stubs: map[string]int{}, BranchSites: map[string]int{}}
 	}
 	work := [][]bool{}
-	ir := &Run{eng: e, job: &Job{}, res: res, ctx: &dctx{work: &work}, maxSteps: 50_000_000, unwind: 1 << 30, maxDepth: 200}
+	ir := &Run{eng: e, job: &Job{}, res: res, ctx: &dctx{work: &work}, maxSteps: 50_000_000, unwind: 1 << 30, maxDepth: 200,
+		dom: map[int]byteSet{}, entangled: map[int]bool{}}
 	ir.initMode = true
 	e.initDepth++
 	saveRec := e.recordFuncs
